@@ -44,6 +44,10 @@ func runC16(c *fw.Case) {
 		c16V1Probe(c)
 		return
 	}
+	if c.Property == "C16" && c.Index%16 == 3 {
+		c16DistV1Probe(c)
+		return
+	}
 	r := c.R
 	nOwners := []int{0, 1, 5, 25, 25, 40, 60, 60, 150, 300}[r.Intn(10)]
 	if c.Tier != "thorough" && nOwners > 150 {
